@@ -236,6 +236,8 @@ def run(ctx):
         if not ctx.failures:
             # events keep flowing: nothing a handler does with one event (raise, send, disconnect) costs the client another event
             serverlib.honest_monitor(c, extra[core.case_id(c)][0], extra[core.case_id(c)][1], ctx)
+        if not ctx.failures:
+            serverlib.silence_monitor(c, extra[core.case_id(c)][0], ctx)
         if ctx.failures:
             return
     thread_smoke(connlib.Real(), ctx)
